@@ -158,7 +158,7 @@ def gen_cases(ctx, binary_thunk):
 
 
 def run_cases(ctx, binary, cases):
-    res = vlib.replay_cases(binary, cases, timeout=1500)
+    res = vlib.replay_cases(binary, cases, timeout=1500, env={"VH_CASE_TIMEOUT": "30"})
     byid = {c["id"]: c for c in cases}
     if len(res) != len(cases):
         raise vlib.ModelFailure("ext replay returned %d results for %d cases" % (len(res), len(cases)))
